@@ -6,6 +6,7 @@ property values are symbolic; the written bytes are
 """
 import time, os, json
 import z3
+import itertools
 from .values import *
 from .interp import Exec, Stats
 from .rbx_models import World
@@ -501,12 +502,23 @@ def det_case(H, ex, case):
         pl = []
         given = list(case['props'].get(i, []))
         if case.get('permute_props') and len(given) > 1:
-            import itertools
             perms = list(itertools.permutations(given))
             given = list(perms[ex.nondet(len(perms), 'property insertion order of node %d' % i)])
         for pn, kind, nums in given:
-            pl.append((pn.encode(), H.const_value(kind, nums)))
+            if kind == 'SharedString':
+                pl.append((pn.encode(), Enum('Variant', 'SharedString', [ex.models.ss_make(ex, [mk_int(b, 'u8') for b in nums['bytes']])])))
+            else:
+                pl.append((pn.encode(), H.const_value(kind, nums)))
         props.append(pl)
+    if case.get('ss_rank'):
+        # blake3 is a fixed function: the order of the hashes of these contents is one fixed order; the case names it (both orders
+        # are run as separate cases with their own expected bytes) so that the paths of one case share one hash function
+        rank = {bytes(k): v for k, v in case['ss_rank']}
+        vals = getattr(ex.world, 'ss_values', [])
+        for (ca, ha), (cb, hb) in itertools.combinations(vals, 2):
+            ka, kb = bytes(x.concrete() for x in ca), bytes(x.concrete() for x in cb)
+            if ka != kb:
+                ex.assume(z3.ULT(ha, hb) if rank[ka] < rank[kb] else z3.ULT(hb, ha))
     dom, refs = build_dom(H, ex, A, shape, classes, props)
     db = H.database(case.get('db'))
     ser = H.S('Serializer', database=Ptr(Cell(db)), compression=Enum('CompressionType', 'None'))
